@@ -163,3 +163,76 @@ def check_hat_centre(prog, ctx, rule):
                               "one flank is applied for x right of the centre, the other for x left of it (if / elif)",
                               "scalar hat: the flank tests `%s` do not split the axis into right of / left of the centre" % [src(t) for t in tests])
     return n
+
+
+DEDUP_CALLS = {"set", "unique", "fromkeys", "frozenset"}
+
+
+def check_support_enumeration(prog, ctx, rule):
+    """The per-sample path of the right-hand side (component grids with >= 200 points) lists the hats whose support contains a
+    sample from floor(x/h) and ceil(x/h) per dimension.  On a grid line floor == ceil: the pair names ONE hat, so the two
+    candidates have to be de-duplicated (set / np.unique / dict.fromkeys, or an explicit comparison of the two) before the cross
+    product -- otherwise the sample is added twice to that hat and the large-grid path disagrees with the vectorised ones."""
+    n = 0
+    for fi in sorted(prog.functions.values(), key=lambda f: f.qual):
+        if fi.cls is None or fi.module.name != "GridOperation":
+            continue
+        if not any(isinstance(x, ast.Attribute) and x.attr == "floor" for x in ast.walk(fi.node)):
+            continue
+        tm = Terms(fi.node)                      # single-definition locals are looked through
+
+        def rounding(t):
+            if t[0] == "call" and t[1][0] == "a" and t[1][2] in ("floor", "ceil") and len(t[2]) == 1:
+                return t[1][2], t[2][0]
+            return None
+        for j in [x for x in walk_local(fi.node) if isinstance(x, (ast.Call, ast.Tuple, ast.List))]:
+            elts = j.args if isinstance(j, ast.Call) else j.elts
+            rs = [rounding(tm.term(a)) for a in elts]
+            fl = {r[1] for r in rs if r and r[0] == "floor"}
+            ce = {r[1] for r in rs if r and r[0] == "ceil"}
+            if not (fl & ce):
+                continue
+            # a joint enumeration of floor(E) and ceil(E): the candidate hats around a sample
+            n += 1
+            stj = R.stmt_of(j)
+            carriers = set()
+            if isinstance(stj, ast.Assign) and len(stj.targets) == 1 and isinstance(stj.targets[0], ast.Name):
+                carriers.add(stj.targets[0].id)
+            # names the joint enumeration flows into (loop / comprehension variables over it, one level of re-assignment)
+            changed = True
+            while changed:
+                changed = False
+                for x in walk_local(fi.node):
+                    tgt = it = None
+                    if isinstance(x, ast.comprehension) or isinstance(x, ast.For):
+                        tgt, it = x.target, x.iter
+                    elif isinstance(x, ast.Assign) and len(x.targets) == 1:
+                        tgt, it = x.targets[0], x.value
+                    if tgt is None:
+                        continue
+                    reads = {y.id for y in ast.walk(it) if isinstance(y, ast.Name)}
+                    direct = any(y is j for y in ast.walk(it))
+                    if direct or (reads & carriers):
+                        for y in ast.walk(tgt):
+                            if isinstance(y, ast.Name) and y.id not in carriers:
+                                carriers.add(y.id)
+                                changed = True
+            ok = False
+            for d in walk_local(fi.node):
+                if isinstance(d, ast.Call) and ((isinstance(d.func, ast.Name) and d.func.id in DEDUP_CALLS) or
+                                                (isinstance(d.func, ast.Attribute) and d.func.attr in DEDUP_CALLS)):
+                    reads = {y.id for a in list(d.args) for y in ast.walk(a) if isinstance(y, ast.Name)}
+                    if reads & carriers or any(y is j for a in d.args for y in ast.walk(a)):
+                        ok = True
+                if isinstance(d, ast.Compare) and len(d.ops) == 1 and isinstance(d.ops[0], (ast.Eq, ast.NotEq)):
+                    sides = [rounding(tm.term(d.left)), rounding(tm.term(d.comparators[0]))]
+                    if all(sides) and {sides[0][0], sides[1][0]} == {"floor", "ceil"}:
+                        ok = True
+                    nm = {y.id for y in ast.walk(d) if isinstance(y, ast.Name)}
+                    if len(nm) == 2 and nm <= carriers and isinstance(d.left, ast.Name) and isinstance(d.comparators[0], ast.Name):
+                        ok = True                # the two candidates of one dimension (unpacked from the joint enumeration) are compared
+            ctx.check(ok, rule, R.key_of(fi, "each-hat-once"), fi.loc(j),
+                      "floor / ceil candidates of a sample are de-duplicated before the hats are enumerated (a sample on a grid line names one hat)",
+                      "%s enumerates the hats around a sample from floor and ceil of the same quantity without removing the duplicate that "
+                      "arises when both coincide (sample on a grid line): the sample is counted twice for that hat" % fi.name)
+    return n
